@@ -11,3 +11,59 @@ package types
 //@   serves C35
 //@   trusted sums non-negative slice lengths; wrap-around would need more than 2^63 storage keys in memory (platform bound)
 //@   ensures n >= 0 && n == storageKeysOf(al)
+
+// ---------------------------------------------------------------------------
+// Transaction accessors (used by C41). The inner TxData accessors are pure observers:
+// a transaction is immutable, so they return the same (pointer) value every time.
+// ---------------------------------------------------------------------------
+
+//@ directive pure-observer core/types.TxData).gasFeeCap
+//@ directive pure-observer core/types.TxData).gasTipCap
+//@ directive pure-observer core/types.TxData).gasPrice
+//@ directive pure-observer core/types.TxData).nonce
+//@ directive pure-observer core/types.TxData).gas
+
+//@ pure func txFeeCap(tx *Transaction) int { return bigval(observe(gasFeeCap, tx.inner)) }
+//@ pure func txTipCap(tx *Transaction) int { return bigval(observe(gasTipCap, tx.inner)) }
+//@ pure func txNonce(tx *Transaction) int { return observe(nonce, tx.inner) }
+//@ pure func txGas(tx *Transaction) int { return observe(gas, tx.inner) }
+//@ pure func cmp3(a int, b int) int { return ite(a < b, 0 - 1, ite(a == b, 0, 1)) }
+// total cost gas x gasPrice (+ blob gas x blob fee cap) + value: abstract, non-negative
+//@ opaque pure func txCost(tx *Transaction) int
+
+//@ func (tx *Transaction) GasFeeCap() (r *big.Int)
+//@   serves C41
+//@   ensures isfresh(r) && bigval(r) == txFeeCap(tx)
+
+//@ func (tx *Transaction) GasTipCap() (r *big.Int)
+//@   serves C41
+//@   ensures isfresh(r) && bigval(r) == txTipCap(tx)
+
+//@ func (tx *Transaction) GasFeeCapCmp(other *Transaction) (c int)
+//@   serves C41
+//@   ensures c == cmp3(txFeeCap(tx), txFeeCap(other))
+
+//@ func (tx *Transaction) GasTipCapCmp(other *Transaction) (c int)
+//@   serves C41
+//@   ensures c == cmp3(txTipCap(tx), txTipCap(other))
+
+//@ func (tx *Transaction) GasFeeCapIntCmp(other *big.Int) (c int)
+//@   serves C41
+//@   ensures c == cmp3(txFeeCap(tx), bigval(other))
+
+//@ func (tx *Transaction) GasTipCapIntCmp(other *big.Int) (c int)
+//@   serves C41
+//@   ensures c == cmp3(txTipCap(tx), bigval(other))
+
+//@ func (tx *Transaction) Nonce() (n uint64)
+//@   serves C41
+//@   ensures n == txNonce(tx)
+
+//@ func (tx *Transaction) Gas() (g uint64)
+//@   serves C41
+//@   ensures g == txGas(tx)
+
+//@ func (tx *Transaction) Cost() (c *big.Int)
+//@   serves C41
+//@   trusted the body dispatches on the dynamic transaction type; assumed to return a fresh big.Int holding the (non-negative) total cost of the immutable transaction
+//@   ensures isfresh(c) && bigval(c) == txCost(tx) && txCost(tx) >= 0
